@@ -390,7 +390,16 @@ PROPS["C15"] = dict(
 
 PROPS["C17"] = dict(
     level="model_checking",
-    rule="network half (c17_network): the real NetworkBuffered.cpp / "
+    rule="serialisation half (c17_serialize, seqx): every sequence of <=3 "
+         "(quick) / <=4 (thorough) gSerialize calls over an alphabet of 34 "
+         "types / 74 values (scalars, pair, tuple, string, vectors of "
+         "copyable and non-copyable elements, deque, gdeque, "
+         "PODResizeableArray, DynamicBitSet, nested buffers, user types) "
+         "after 0..7 pad bytes, deserialised in order: values equal, bytes "
+         "consumed == bytes produced per value, nothing left / no over-read; "
+         "variadic forms; deserialising into targets that already hold a "
+         "value; history BFS over SerializeBuffer/DeSerializeBuffer "
+         "operations against byte vectors. network half (c17_network): the real NetworkBuffered.cpp / "
          "NetworkIOMPI.cpp / Network.cpp / Barrier.cpp over an in-process MPI "
          "reflector (message to host h tag t comes back from host h tag t, "
          "FIFO per peer, arbitrary across peers), communication thread + "
@@ -418,12 +427,81 @@ PROPS["C17"] = dict(
                "checked on each",
     level_note="bounded: <=4 messages, <=3 hosts, <=2 sender threads",
     design_ref="DESIGN.md 4, 7/C17",
-    parts=[dict(engine="e1", harness="c17_network",
+    parts=[dict(engine="e2", harness="c17_serialize", weight=1),
+           dict(engine="e1", harness="c17_network", weight=3,
                 extra_srcs=("libdist/src/NetworkBuffered.cpp",
                             "libdist/src/Network.cpp",
                             "libdist/src/NetworkIOMPI.cpp",
                             "libdist/src/Barrier.cpp"),
                 extra_inc=("harness/fakempi",))],
+)
+
+PROPS["C14"] = dict(
+    level="model_checking",
+    engine_name="seqx",
+    rule="history BFS on the real containers, one fresh object + one fresh "
+         "std:: reference model per history, full comparison (return values, "
+         "size, forward AND backward traversal, live-instance registry with "
+         "moved-from flag) after every operation; state key = observable "
+         "contents incl. block fill pattern. Cases: gdeque<Elem,2|3>, "
+         "gdeque<int,2>, FixedSizeRing<2|3>, FixedSizeBag, "
+         "ConcurrentFixedSizeBag, gslist<2|3>, flat_map (22 ops), "
+         "PODResizeableArray, LazyArray/LazyObject/optional, "
+         "MinHeap/ThreadSafeMinHeap/ThreadSafeOrderedSet, InsertBag with 2 "
+         "and 3 elements per block, LargeArray; enumeration of "
+         "TwoLevelIterator(A) over every shape of <=3 (quick) / <=5 inner "
+         "containers, flat_map and priority-queue range constructors. "
+         "Non-trivial (per case): container spanned >=2 blocks / ring wrapped "
+         "/ bag full / >=2 keys / reallocated twice / >=3 queued / >=2 live "
+         "slots",
+    bound_note="BFS depth per cell in coverage.cells (quick 4-5, thorough "
+               "7-10; several small state spaces are closed)",
+    assumptions=E2_ASSUME + [
+        "operations the headers document as undefined (pop/front on empty "
+        "where asserted, gdeque::erase = GALOIS_DIE) are not in the alphabet",
+        "members that do not compile are outside the property (opt-in "
+        "diagnostic VERIF_COMPILE_PROBES=1)"],
+    deadline=dict(quick=200, thorough=2400),
+    technique="explicit-state BFS over operation histories on the real "
+              "containers (seqx, ASan) against std:: reference models",
+    level_text="every operation history up to the depth bound (deduplicated "
+               "by observable state) is replayed on the real container and "
+               "compared step by step with the standard counterpart",
+    level_note="single thread; element values from a 2-3 letter alphabet; "
+               "chunk sizes 2-3 so block boundaries lie inside the depth "
+               "bound",
+    design_ref="DESIGN.md 3, 7/C14",
+    parts=[dict(engine="e2", harness="c14_containers")],
+)
+
+PROPS["C16"] = dict(
+    level="model_checking",
+    rule="(1) c16_parallelstl (seqx): every sequence of length <=6 (quick) / "
+         "<=7 over 3 keys and every combination of a 6-pattern block "
+         "alphabet for sizes {1023,1024,1025,2047,2048,2049,3072,3073,4096} "
+         "(<=3 blocks quick, <=4 thorough) through sort, partition, count_if, "
+         "find_if, accumulate, map_reduce, partial_sum, destroy with T=1..4 "
+         "real threads, compared with std:: (partition: valid point + "
+         "permutation; find_if: some satisfying element). (2) c16_pstl_sched "
+         "(gsched): partition with 2-4 blocks x block patterns, sort above "
+         "the cut-off with rand() pinned, find_if with parallel_break, "
+         "count_if / accumulate / map_reduce / partial_sum under ALL "
+         "schedules with <= d deviations (d=1-2 quick, 2-5 thorough). "
+         "Non-trivial = T>=2 and input takes the parallel path / distinct "
+         "trace hash with >= 1 deviation",
+    bound_note="per-cell bounds in coverage.cells",
+    assumptions=E2_ASSUME + E1_ASSUME,
+    deadline=dict(quick=240, thorough=3000),
+    technique="bounded-exhaustive input enumeration (seqx) plus exhaustive "
+              "deviation-bounded schedule enumeration (gsched) of the "
+              "block-claiming helpers, both on the real ParallelSTL code",
+    level_text="all inputs below the stated sizes for T=1..4, and all "
+               "schedules up to d deviations for the synchronising kernels",
+    level_note="thread interleavings in part (1) are uncontrolled (one run "
+               "per input and T); part (2) controls them for <=4 blocks",
+    design_ref="DESIGN.md 3, 7/C16",
+    parts=[dict(engine="e2", harness="c16_parallelstl", weight=2),
+           dict(engine="e1", harness="c16_pstl_sched", weight=2)],
 )
 
 NOT_APPLICABLE = {}
